@@ -156,6 +156,7 @@ inductive Err where
 inductive Res (α : Type) where
   | ok (a : α) : Res α
   | err (e : Err) : Res α
+  deriving DecidableEq
 
 instance {α} [Inhabited α] : Inhabited (Res α) := ⟨.err .other⟩
 
